@@ -74,7 +74,7 @@ def generate(rng, tier, idx):
         for _ in range(rng.choice([0, 0, 1, 1, 2, 3])):
             faults.append([rng.choice(['drop', 'dup', 'move', 'insert', 'cut', 'nofinal', 'crlf', 'lead-blank', 'trail-blank',
                                        'trail-entry', 'lead-entry', 'undash', 'adddash', 'inject-hdr', 'concat', 'trail-ws',
-                                       'flip-body', 'swap-sig', 'sig-entry', 'long-line', 'long-line']), rng.randrange(0, 1000), rng.randrange(0, 1000)])
+                                       'flip-body', 'swap-sig', 'sig-entry', 'long-line', 'long-line', 'long-blank', 'long-blank', 'trail-nul']), rng.randrange(0, 1000), rng.randrange(0, 1000)])
         return {'prop': ID, 'mode': 'real', 'order_key': '0', 'payload': payload, 'final_nl': rng.random() < 0.85,
                 'faults': faults, 'not_dash_escaped': rng.random() < 0.15, 'verify': True}
     if rng.random() < 0.75:
@@ -270,10 +270,10 @@ def judge(text, cl, r, m, peer_texts, verify, real_truth=None):
         if r[0] != 'GE':
             vs.append(viol('frame.wrong-failure', '%s: %s' % (what, describe(r)), sig='%s:%s' % (r[0], r[1])))
             return vs, zone
-        if verify and any(len(l.encode('utf8', 'replace')) > 16000 for l in lines):
+        if verify and any(len(l.encode('utf8', 'replace')) > 16000 or '\x00' in l for l in lines):
             # a line beyond the peer's own line-length limit is not covered by the signature whatever follows it:
             # refusing the Manifest is right, with whichever of the library's exceptions comes first
-            zone = 'line-beyond-peer-line-limit-rejected'
+            zone = 'line-beyond-peer-line-limit-or-with-nul-rejected'
             if m.openpgp_signed:
                 vs.append(viol('frame.marked-signed-unverified', '%s: load failed (%s) but openpgp_signed=%r' % (what, r[1], m.openpgp_signed), sig='flag'))
             return vs, zone
@@ -371,6 +371,23 @@ def apply_fault(lines, f, sc):
                 # fill up to just under 16384 CHARACTERS: with multi-byte characters in the line that is far more bytes
                 pad = max(0, -pad - len(lines[j]) - 72)
             lines[j] = lines[j] + ' ' * pad + (' SHA256 ' + 'e' * 64 if lines[j].lstrip('- ').startswith(('DATA', 'DIST')) else ' extra-token')
+    elif k == 'long-blank':
+        # an empty line of the signed text (or the one that ends the armor headers) replaced by blanks up to the peer's
+        # line limit followed by tokens: the peer sees an empty line
+        try:
+            first_blank = lines.index('')
+        except ValueError:
+            first_blank = None
+        blanks = [j for j, l in enumerate(lines) if l == '' and 0 < j < len(lines) - 1]
+        if blanks:
+            j = blanks[a % len(blanks)]
+            pad = (19998, 20000, 20100, 40000)[b % 4]
+            lines[j] = ' ' * pad + ('DATA evil.txt 4 SHA256 ' + 'e' * 64 if b % 3 else 'X-Header: v')
+    elif k == 'trail-nul':
+        body = [j for j, l in enumerate(lines) if l.startswith(('DATA ', 'IGNORE ', 'DIST '))]
+        if body:
+            j = body[a % len(body)]
+            lines[j] = lines[j] + '\x00' * (1 + b % 3)
     elif k == 'lead-blank':
         lines.insert(0, '')
     elif k == 'trail-blank':
